@@ -171,12 +171,11 @@ theorem push_main (P : Toks) (M : List (Str × Toks)) (m : Str × Toks) (outMain
     (ha : annOut = P ++ sepBy (M.map memToks)) (ho : outMain = !M.isEmpty) :
     (if outMain then annOut ++ [.comma] else annOut) ++ memToks m = P ++ sepBy ((M ++ [m]).map memToks) := by
   rw [List.map_append, List.map_cons, List.map_nil, sepBy_snoc, ha, ho]
-  cases M <;> simp [List.append_assoc]
+  cases M <;> simp
 
 theorem push_body (B : List (Str × Toks)) (m : Str × Toks) (bodyOut : Toks) (hb : bodyOut = sepBy (B.map memToks)) :
     (if bodyOut.isEmpty then bodyOut else bodyOut ++ [.comma]) ++ memToks m = sepBy ((B ++ [m]).map memToks) := by
   rw [List.map_append, List.map_cons, List.map_nil, sepBy_snoc, hb, sepBy_isEmpty _ (NE_map_memToks B)]
-  cases B <;> simp
 
 theorem step_inv (showI : Int → Str) (c : Cfg) (P : Toks) (M B : List (Str × Toks)) (t g r e : Bool) (st : LoopSt) (d : Datum)
     (h : LoopInv P M B t g r e st) :
@@ -186,74 +185,84 @@ theorem step_inv (showI : Int → Str) (c : Cfg) (P : Toks) (M B : List (Str × 
       (r || (d.inAnno && decide (d.keyId = kGenerated))) (e || (d.inAnno && decide (d.keyId = kGenerator)))
       (stepDatum showI c st d) := by
   obtain ⟨ha, ho, hb, ht, hg, hr, he⟩ := h
-  unfold stepDatum
   by_cases hA : d.inAnno = true
-  · rw [if_pos hA]
-    by_cases h1 : d.keyId = kGenerated
+  · by_cases h1 : d.keyId = kGenerated
     · have hm : isMain d = true := by simp [isMain, isMainKey, hA, h1]
-      rw [if_pos h1]; simp only [hm, ↓reduceIte]
+      have hs : stepDatum showI c st d = { st with annOut := (if st.outMain then st.annOut ++ [.comma] else st.annOut) ++ outPred showI c d.keyId d.val, supGenerated := true, outMain := true } := by
+        simp [stepDatum, hA, h1]
+      rw [hs, hm]
       refine ⟨?_, ?_, ?_, ?_, ?_, ?_, ?_⟩
       · show _ ++ outPred showI c d.keyId d.val = _
         rw [outPred_eq]; exact push_main P M _ _ _ ha ho
       · show true = _; simp
       · show st.bodyOut = _; simpa using hb
-      · show st.supType = _; simp [ht, hA, h1, kGenerated, kType]
-      · show st.supId = _; simp [hg, hA, h1, kGenerated, kId]
+      · show st.supType = _; simp [ht, h1, kGenerated, kType]
+      · show st.supId = _; simp [hg, h1, kGenerated, kId]
       · show true = _; simp [hA, h1]
-      · show st.supGenerator = _; simp [he, hA, h1, kGenerated, kGenerator]
-    · rw [if_neg h1]
-      by_cases h2 : d.keyId = kGenerator
+      · show st.supGenerator = _; simp [he, h1, kGenerated, kGenerator]
+    · by_cases h2 : d.keyId = kGenerator
       · have hm : isMain d = true := by simp [isMain, isMainKey, hA, h2]
-        rw [if_pos h2]; simp only [hm, ↓reduceIte]
+        have hs : stepDatum showI c st d = { st with annOut := (if st.outMain then st.annOut ++ [.comma] else st.annOut) ++ outPred showI c d.keyId d.val, supGenerator := true, outMain := true } := by
+          simp only [stepDatum, hA, ↓reduceIte, if_neg h1, if_pos h2]
+        rw [hs, hm]
         refine ⟨?_, ?_, ?_, ?_, ?_, ?_, ?_⟩
         · show _ ++ outPred showI c d.keyId d.val = _
           rw [outPred_eq]; exact push_main P M _ _ _ ha ho
         · show true = _; simp
         · show st.bodyOut = _; simpa using hb
-        · show st.supType = _; simp [ht, hA, h2, kGenerator, kType]
-        · show st.supId = _; simp [hg, hA, h2, kGenerator, kId]
-        · show st.supGenerated = _; simp [hr, hA, h1]
+        · show st.supType = _; simp [ht, h2, kGenerator, kType]
+        · show st.supId = _; simp [hg, h2, kGenerator, kId]
+        · show st.supGenerated = _; simp [hr, h1]
         · show true = _; simp [hA, h2]
-      · rw [if_neg h2]
-        by_cases h3 : d.keyId = kMotivation ∨ d.keyId = kCreated ∨ d.keyId = kCreator
+      · by_cases h3 : d.keyId = kMotivation ∨ d.keyId = kCreated ∨ d.keyId = kCreator
         · have hm : isMain d = true := by
             rcases h3 with h | h | h <;> simp [isMain, isMainKey, hA, h]
-          rw [if_pos h3]; simp only [hm, ↓reduceIte]
+          have hs : stepDatum showI c st d = { st with annOut := (if st.outMain then st.annOut ++ [.comma] else st.annOut) ++ outPred showI c d.keyId d.val, outMain := true } := by
+            simp only [stepDatum, hA, ↓reduceIte, if_neg h1, if_neg h2, if_pos h3]
+          rw [hs, hm]
           refine ⟨?_, ?_, ?_, ?_, ?_, ?_, ?_⟩
           · show _ ++ outPred showI c d.keyId d.val = _
             rw [outPred_eq]; exact push_main P M _ _ _ ha ho
           · show true = _; simp
           · show st.bodyOut = _; simpa using hb
           · show st.supType = _
-            rcases h3 with h | h | h <;> simp [ht, hA, h, kMotivation, kCreated, kCreator, kType]
+            rcases h3 with h | h | h <;> simp [ht, h, kMotivation, kCreated, kCreator, kType]
           · show st.supId = _
-            rcases h3 with h | h | h <;> simp [hg, hA, h, kMotivation, kCreated, kCreator, kId]
-          · show st.supGenerated = _; simp [hr, hA, h1]
-          · show st.supGenerator = _; simp [he, hA, h2]
+            rcases h3 with h | h | h <;> simp [hg, h, kMotivation, kCreated, kCreator, kId]
+          · show st.supGenerated = _; simp [hr, h1]
+          · show st.supGenerator = _; simp [he, h2]
         · have hm : isMain d = false := by
             simp only [not_or] at h3
             simp [isMain, isMainKey, hA, h1, h2, h3.1, h3.2.1, h3.2.2]
-          rw [if_neg h3]; simp only [hm, Bool.false_eq_true, ↓reduceIte]
+          have hs : stepDatum showI c st d =
+              { st with
+                supType := (st.supType || decide (d.keyId = kType))
+                supId := (st.supId || (decide (d.keyId ≠ kType) && decide (d.keyId = kId)))
+                bodyOut := (if st.bodyOut.isEmpty then st.bodyOut else st.bodyOut ++ [.comma]) ++ outPred showI c d.keyId d.val } := by
+            simp only [stepDatum, hA, ↓reduceIte, if_neg h1, if_neg h2, if_neg h3]
+          rw [hs, hm]
           refine ⟨?_, ?_, ?_, ?_, ?_, ?_, ?_⟩
           · show st.annOut = _; simpa using ha
           · show st.outMain = _; simpa using ho
           · show _ ++ outPred showI c d.keyId d.val = _
-            rw [outPred_eq, if_pos hA]; exact push_body B _ _ hb
+            rw [outPred_eq]; simp only [hA, ↓reduceIte, Bool.false_eq_true]; exact push_body B _ _ hb
           · show (st.supType || decide (d.keyId = kType)) = _; simp [ht, hA]
           · show (st.supId || (decide (d.keyId ≠ kType) && decide (d.keyId = kId))) = _
             by_cases hk : d.keyId = kId
             · simp [hg, hA, hk, kId, kType]
             · simp [hg, hA, hk]
-          · show st.supGenerated = _; simp [hr, hA, h1]
-          · show st.supGenerator = _; simp [he, hA, h2]
+          · show st.supGenerated = _; simp [hr, h1]
+          · show st.supGenerator = _; simp [he, h2]
   · have hA' : d.inAnno = false := by simpa using hA
     have hm : isMain d = false := by simp [isMain, hA']
-    rw [if_neg hA]; simp only [hm, Bool.false_eq_true, ↓reduceIte]
+    have hs : stepDatum showI c st d = { st with bodyOut := (if st.bodyOut.isEmpty then st.bodyOut else st.bodyOut ++ [.comma]) ++ outPred showI c d.keyIri d.val } := by
+      simp [stepDatum, hA']
+    rw [hs, hm]
     refine ⟨?_, ?_, ?_, ?_, ?_, ?_, ?_⟩
     · show st.annOut = _; simpa using ha
     · show st.outMain = _; simpa using ho
     · show _ ++ outPred showI c d.keyIri d.val = _
-      rw [outPred_eq, if_neg hA]; exact push_body B _ _ hb
+      rw [outPred_eq]; simp only [hA', Bool.false_eq_true, ↓reduceIte]; exact push_body B _ _ hb
     · show st.supType = _; simp [ht, hA']
     · show st.supId = _; simp [hg, hA']
     · show st.supGenerated = _; simp [hr, hA']
@@ -273,5 +282,356 @@ theorem loop_inv (showI : Int → Str) (c : Cfg) (P : Toks) (data : List Datum) 
     simp only [List.foldl_cons]
     rw [mainMembers_cons, bodyMembers_cons, hasAnnoKey_cons, hasAnnoKey_cons, hasAnnoKey_cons, hasAnnoKey_cons]
     simpa [List.append_assoc, Bool.or_assoc] using h2
+
+/-! ## selectors -/
+
+theorem objT_ne (ms : List (Str × Toks)) : objT ms ≠ [] := by simp [objT]
+
+theorem textObj_eq (resIri : Str) (b e : Nat) : textObj resIri b e = textSpec resIri b e := by
+  simp [textObj, textSpec, objT, sepBy]
+
+mutual
+theorem selItems_ne (tmpl second : Bool) : ∀ s, NE (selItems tmpl second s)
+  | .text resIri b e t => by
+    intro x hx
+    unfold selItems at hx
+    by_cases hs : second = true <;> by_cases ht : tmpl = true <;> simp [hs, ht, textSpec] at hx <;> subst hx <;> simp [objT]
+  | .ann (some iri) => by intro x hx; simp [selItems] at hx; subst hx; exact objT_ne _
+  | .ann none => by intro x hx; simp [selItems] at hx; subst hx; exact objT_ne _
+  | .res iri => by intro x hx; simp [selItems] at hx; subst hx; exact objT_ne _
+  | .set iri => by intro x hx; simp [selItems] at hx; subst hx; exact objT_ne _
+  | .complex kind subs => by intro x hx; simp [selItems] at hx; subst hx; exact objT_ne _
+  | .skip => by intro x hx; simp [selItems] at hx
+  | .ranged subs => by unfold selItems; exact selsItems_ne tmpl second subs
+theorem selsItems_ne (tmpl second : Bool) : ∀ ss, NE (selsItems tmpl second ss)
+  | [] => by intro x hx; simp [selsItems] at hx
+  | s :: ss => by unfold selsItems; exact NE_append (selItems_ne tmpl second s) (selsItems_ne tmpl second ss)
+end
+
+/-- joining the non-empty ones among the joined groups is joining everything -/
+theorem join_groups (I : List Toks) (F R : List Toks) (hI : NE I) (hF : NE F) (hR : NE R) (h : sepBy F = sepBy R) :
+    sepBy ((sepBy I :: F).filter (fun i => !i.isEmpty)) = sepBy (I ++ R) := by
+  have hFf : F.filter (fun i => !i.isEmpty) = F := by
+    apply List.filter_eq_self.mpr; intro x hx; simpa [List.isEmpty_iff] using hF x hx
+  have hFR : F = [] ↔ R = [] := by rw [← sepBy_eq_nil F hF, ← sepBy_eq_nil R hR, h]
+  by_cases hi : I = []
+  · subst hi; simp [sepBy, hFf, h]
+  · have hne : sepBy I ≠ [] := fun e => hi ((sepBy_eq_nil I hI).mp e)
+    have : (sepBy I :: F).filter (fun i => !i.isEmpty) = sepBy I :: F := by
+      rw [List.filter_cons]; simp [List.isEmpty_iff, hne, hFf]
+    rw [this]
+    by_cases hf : F = []
+    · have hr : R = [] := hFR.mp hf
+      subst hf; subst hr; simp [sepBy]
+    · have hr : R ≠ [] := fun e => hf (hFR.mpr e)
+      rw [sepBy_cons_ne _ _ hf, sepBy_append _ _ hi hr, h]
+
+mutual
+theorem outSel_nested (tmpl second : Bool) : ∀ s, (outSel tmpl true second s).1 = sepBy (selItems tmpl second s)
+  | .text resIri b e t => by
+    cases second <;> cases tmpl <;> simp [outSel, selItems, sepBy, textObj_eq]
+  | .ann (some iri) => by simp [outSel, selItems, sepBy, objT]
+  | .ann none => by simp [outSel, selItems, sepBy, objT]
+  | .res iri => by simp [outSel, selItems, sepBy, objT]
+  | .set iri => by simp [outSel, selItems, sepBy, objT]
+  | .complex kind subs => by
+    have := outSels_items tmpl second subs
+    simp only [outSel, selItems, sepBy, objT, arrT, List.map_cons, List.map_nil]
+    rw [this]; simp
+  | .skip => by simp [outSel, selItems, sepBy]
+  | .ranged subs => by
+    have := outSels_items tmpl second subs
+    simp only [outSel, selItems, ↓reduceIte]
+    exact this
+theorem outSels_items (tmpl second : Bool) : ∀ ss,
+    sepBy (((outSels tmpl second ss).1).filter (fun i => !i.isEmpty)) = sepBy (selsItems tmpl second ss)
+  | [] => by simp [outSels, selsItems]
+  | s :: ss => by
+    have h1 := outSel_nested tmpl second s
+    have h2 := outSels_items tmpl second ss
+    simp only [outSels, selsItems]
+    rw [h1]
+    have hF : NE (((outSels tmpl second ss).1).filter (fun i => !i.isEmpty)) := by
+      intro x hx; have := (List.mem_filter.mp hx).2; simpa [List.isEmpty_iff] using this
+    have := join_groups (selItems tmpl second s) _ (selsItems tmpl second ss) (selItems_ne tmpl second s) hF (selsItems_ne tmpl second ss) h2
+    rw [← this]
+    rw [List.filter_cons, List.filter_cons]
+    by_cases he : (sepBy (selItems tmpl second s)).isEmpty = true <;> simp [he]
+end
+
+mutual
+theorem outSel_need (tmpl : Bool) : ∀ s, (outSel tmpl true false s).2 = (tmpl && hasText s)
+  | .text resIri b e t => by simp [outSel, hasText]
+  | .ann (some iri) => by simp [outSel, hasText]
+  | .ann none => by simp [outSel, hasText]
+  | .res iri => by simp [outSel, hasText]
+  | .set iri => by simp [outSel, hasText]
+  | .complex kind subs => by simp [outSel, hasText, outSels_need tmpl subs]
+  | .skip => by simp [outSel, hasText]
+  | .ranged subs => by simp [outSel, hasText, outSels_need tmpl subs]
+theorem outSels_need (tmpl : Bool) : ∀ ss, (outSels tmpl false ss).2 = (tmpl && hasTexts ss)
+  | [] => by simp [outSels, hasTexts]
+  | s :: ss => by
+    simp only [outSels, hasTexts, outSel_need tmpl s, outSels_need tmpl ss]
+    cases tmpl <;> simp
+end
+
+/-! ## the target -/
+
+theorem complex_pass (tmpl second : Bool) (kind : Nat) (subs : List Sel) :
+    (outSel tmpl false second (.complex kind subs)).1
+      = objT [(kType, [.str (complexType kind)]), (kItems, arrT (selsItems tmpl second subs))] := by
+  have := outSels_items tmpl second subs
+  simp only [outSel, objT, arrT, sepBy, List.map_cons, List.map_nil]
+  rw [this]; simp
+
+theorem target_eq (tmpl : Bool) (sel : Sel) (h : TopOk sel) :
+    (if (outSel tmpl false false sel).2 then
+        [Tok.lk] ++ (outSel tmpl false false sel).1 ++ [.comma] ++ (outSel tmpl false true sel).1 ++ [.rk]
+      else (outSel tmpl false false sel).1) = targetSpec tmpl sel := by
+  cases sel with
+  | text resIri b e t => cases tmpl <;> simp [outSel, targetSpec, arrT, sepBy, textObj_eq]
+  | ann iri => cases iri <;> simp [outSel, targetSpec, selItems, sepBy, objT]
+  | res iri => simp [outSel, targetSpec, selItems, sepBy, objT]
+  | set iri => simp [outSel, targetSpec, selItems, sepBy, objT]
+  | complex kind subs =>
+    have hn : (outSel tmpl false false (.complex kind subs)).2 = (tmpl && hasTexts subs) := by
+      simp [outSel, outSels_need]
+    rw [hn, complex_pass, complex_pass]
+    simp only [targetSpec]
+    by_cases hc : (tmpl && hasTexts subs) = true
+    · simp [hc, arrT, sepBy]
+    · simp [hc]
+  | skip => exact absurd h (by simp [TopOk])
+  | ranged subs => exact absurd h (by simp [TopOk])
+
+/-! ## the document -/
+
+theorem withCommas_singleton (x : Toks) : withCommas [x] = x ++ [.comma] := by simp [withCommas]
+theorem withCommas_nil : withCommas [] = [] := rfl
+theorem withCommas_cons (x : Toks) (L : List Toks) : withCommas (x :: L) = x ++ [.comma] ++ withCommas L := by
+  simp [withCommas]
+
+theorem objT_append_ne (X Y : List (Str × Toks)) (hy : Y ≠ []) :
+    objT (X ++ Y) = [.lb] ++ withCommas (X.map memToks) ++ sepBy (Y.map memToks) ++ [.rb] := by
+  rw [objT_eq, List.map_append, sepBy_append_ne _ _ (by simpa using hy)]
+  simp
+
+theorem idToks_eq (c : Cfg) (annIri : Option Str) (suffix : Str) :
+    idToks c annIri suffix = withCommas ((idMem c annIri suffix).map memToks) := by
+  unfold idToks idMem
+  cases annIri with
+  | some iri => simp [withCommas, memToks]
+  | none => cases c.genIri <;> simp [withCommas, memToks]
+
+theorem prefix_eq (c : Cfg) (annIri : Option Str) :
+    prefixToks c annIri = [.lb] ++ withCommas ((([(kContext, ctxSpec c)] ++ idMem c annIri [] ++ [(kType, [Tok.str vAnnotation])]) : List (Str × Toks)).map memToks) := by
+  simp only [prefixToks, ctxToks_eq, idToks_eq, List.map_append, withCommas_append]
+  simp [withCommas, memToks]
+
+theorem finish_spec (c : Cfg) (annIri : Option Str) (sel : Sel) (h : TopOk sel)
+    (P : Toks) (M B : List (Str × Toks)) (t g r e : Bool) (st : LoopSt) (hi : LoopInv P M B t g r e st) :
+    finish c annIri st sel =
+      P ++ withCommas ((M
+        ++ (if c.autoGenerated && !r then [(kGenerated, [Tok.str nowMark])] else [])
+        ++ (if c.autoGenerator && !e then
+              [(kGenerator, objT [(kId, [.str vLibIri]), (kType, [.str vSoftware]), (kName, [.str vLibName])])] else [])
+        ++ (if B.isEmpty then [] else
+              [(kBody, objT ((if t then [] else [(kType, [Tok.str vDataset])])
+                ++ (if g then [] else idMem c annIri vBodySuffix) ++ B))])).map memToks)
+        ++ memToks (kTarget, targetSpec c.hasTemplate sel) ++ [.rb] := by
+  obtain ⟨ha, ho, hb, ht, hg, hr, he⟩ := hi
+  have hbe : st.bodyOut.isEmpty = B.isEmpty := by rw [hb, sepBy_isEmpty _ (NE_map_memToks _)]; simp
+  have hme : (if st.outMain then st.annOut ++ [.comma] else st.annOut) = P ++ withCommas (M.map memToks) := by
+    rw [ha, ho, ← sepBy_comma]
+    cases M <;> simp [sepBy]
+  have htg := target_eq c.hasTemplate sel h
+  unfold finish
+  simp only [hme, hbe, ht, hg, hr, he]
+  rw [show (if (outSel c.hasTemplate false false sel).2 = true then
+        (_ : Toks) ++ [Tok.str kTarget, Tok.colon] ++ ([Tok.lk] ++ (outSel c.hasTemplate false false sel).1 ++ [Tok.comma] ++ (outSel c.hasTemplate false true sel).1 ++ [Tok.rk])
+      else _ ++ [Tok.str kTarget, Tok.colon] ++ (outSel c.hasTemplate false false sel).1)
+      = _ ++ [Tok.str kTarget, Tok.colon] ++ targetSpec c.hasTemplate sel from by rw [← htg]; split <;> rfl]
+  by_cases h3 : B = []
+  · subst h3
+    by_cases h1 : (c.autoGenerated && !r) = true <;> by_cases h2 : (c.autoGenerator && !e) = true <;>
+      simp [h1, h2, withCommas, memToks, objT, sepBy]
+  · have hB : B.isEmpty = false := by simpa [List.isEmpty_iff] using h3
+    have hbody' : ∀ R : Toks, [Tok.str kBody, Tok.colon, Tok.lb] ++
+        ((if (!t) = true then [Tok.str kType, Tok.colon, Tok.str vDataset, Tok.comma] else []) ++
+          ((if (!g) = true then idToks c annIri vBodySuffix else []) ++ (st.bodyOut ++ ([Tok.rb, Tok.comma] ++ R))))
+        = withCommas ([(kBody, objT ((if t then [] else [(kType, [Tok.str vDataset])])
+                ++ ((if g then [] else idMem c annIri vBodySuffix) ++ B)))].map memToks) ++ R := by
+      intro R
+      rw [← List.append_assoc _ _ B, objT_append_ne _ B h3, hb, idToks_eq]
+      cases t <;> cases g <;> simp [withCommas, memToks]
+    simp only [hB, Bool.not_false, ↓reduceIte, Bool.false_eq_true]
+    by_cases h1 : (c.autoGenerated && !r) = true <;> by_cases h2 : (c.autoGenerator && !e) = true
+    all_goals
+      simp only [h1, h2, ↓reduceIte, List.append_assoc, Bool.false_eq_true]
+      rw [hbody']
+      simp only [List.map_append, withCommas_append, List.append_assoc, List.nil_append, List.map_nil, withCommas_nil]
+      simp [withCommas, memToks, sepBy, objT_eq]
+
+/-! ## the specified document is well-formed JSON -/
+
+def wvList : WVs → List WV
+  | .nil => []
+  | .cons x xs => x :: wvList xs
+
+theorem elemToks_eq (showI : Int → Str) : ∀ xs, elemToks showI xs = sepBy ((wvList xs).map (valToks showI))
+  | .nil => by simp [elemToks, wvList, sepBy]
+  | .cons x .nil => by simp [elemToks, wvList, sepBy]
+  | .cons x (.cons y ys) => by
+    have := elemToks_eq showI (.cons y ys)
+    simp only [elemToks, wvList, List.map_cons] at this ⊢
+    rw [this, sepBy_cons_cons]
+
+mutual
+theorem valToks_wf (showI : Int → Str) : ∀ v, WF (valToks showI v)
+  | .null => by simp only [valToks]; exact WF.raw _
+  | .bool true => by simp only [valToks]; exact WF.raw _
+  | .bool false => by simp only [valToks]; exact WF.raw _
+  | .int n => by simp only [valToks]; exact WF.raw _
+  | .str s => by simp only [valToks]; exact WF.str _
+  | .lit l => by simp only [valToks]; exact WF.raw _
+  | .list xs => by
+    simp only [valToks, elemToks_eq]
+    exact WF.arr _ (elems_wf showI xs)
+theorem elems_wf (showI : Int → Str) : ∀ xs, ∀ t ∈ (wvList xs).map (valToks showI), WF t
+  | .nil => by intro t ht; simp [wvList] at ht
+  | .cons x xs => by
+    intro t ht
+    simp only [wvList, List.map_cons, List.mem_cons] at ht
+    rcases ht with rfl | ht
+    · exact valToks_wf showI x
+    · exact elems_wf showI xs t ht
+end
+
+theorem wf_obj1 (k : Str) (v : Toks) (hv : WF v) : WF (objT [(k, v)]) :=
+  WF.obj _ (by intro m hm; simp at hm; subst hm; exact hv)
+
+theorem predMember_wf (showI : Int → Str) (c : Cfg) (pred : Str) (v : WV) : WF (predMember showI c pred v).2 := by
+  unfold predMember
+  cases h : valueIsIri v with
+  | some s => exact wf_obj1 _ _ (WF.str s)
+  | none => exact valToks_wf showI v
+
+theorem ctxSpec_wf (c : Cfg) : WF (ctxSpec c) := by
+  unfold ctxSpec
+  split
+  · exact WF.str _
+  · refine WF.arr _ ?_
+    intro t ht
+    simp only [List.mem_append, List.mem_cons, List.mem_map, List.not_mem_nil, or_false] at ht
+    rcases ht with (rfl | ⟨u, _, rfl⟩) | ht
+    · exact WF.str _
+    · exact WF.str _
+    · split at ht
+      · simp at ht
+      · simp only [List.mem_cons, List.not_mem_nil, or_false] at ht
+        subst ht
+        refine WF.obj _ ?_
+        intro m hm
+        rcases List.mem_map.mp hm with ⟨p, _, rfl⟩
+        exact WF.str _
+
+theorem textSpec_wf (resIri : Str) (b e : Nat) : WF (textSpec resIri b e) := by
+  unfold textSpec
+  refine WF.obj _ ?_
+  intro m hm
+  simp only [List.mem_cons, List.not_mem_nil, or_false] at hm
+  rcases hm with rfl | rfl
+  · exact WF.str _
+  · refine WF.obj _ ?_
+    intro m hm
+    simp only [List.mem_cons, List.not_mem_nil, or_false] at hm
+    rcases hm with rfl | rfl | rfl
+    · exact WF.str _
+    · exact WF.raw _
+    · exact WF.raw _
+
+theorem wf_obj2 (k1 k2 : Str) (v1 v2 : Toks) (h1 : WF v1) (h2 : WF v2) : WF (objT [(k1, v1), (k2, v2)]) :=
+  WF.obj _ (by
+    intro m hm
+    simp only [List.mem_cons, List.not_mem_nil, or_false] at hm
+    rcases hm with rfl | rfl
+    · exact h1
+    · exact h2)
+
+mutual
+theorem selItems_wf (tmpl second : Bool) : ∀ s, ∀ t ∈ selItems tmpl second s, WF t
+  | .text resIri b e tm => by
+    intro t ht
+    unfold selItems at ht
+    by_cases hs : second = true <;> by_cases hm : tmpl = true <;> simp [hs, hm] at ht <;> subst ht
+    · exact WF.str _
+    · exact textSpec_wf _ _ _
+    · exact textSpec_wf _ _ _
+  | .ann (some iri) => by intro t ht; simp [selItems] at ht; subst ht; exact wf_obj2 _ _ _ _ (WF.str _) (WF.str _)
+  | .ann none => by intro t ht; simp [selItems] at ht; subst ht; exact wf_obj1 _ _ (WF.raw _)
+  | .res iri => by intro t ht; simp [selItems] at ht; subst ht; exact wf_obj2 _ _ _ _ (WF.str _) (WF.str _)
+  | .set iri => by intro t ht; simp [selItems] at ht; subst ht; exact wf_obj2 _ _ _ _ (WF.str _) (WF.str _)
+  | .complex kind subs => by
+    intro t ht; simp [selItems] at ht; subst ht
+    exact wf_obj2 _ _ _ _ (WF.str _) (WF.arr _ (selsItems_wf tmpl second subs))
+  | .skip => by intro t ht; simp [selItems] at ht
+  | .ranged subs => by unfold selItems; exact selsItems_wf tmpl second subs
+theorem selsItems_wf (tmpl second : Bool) : ∀ ss, ∀ t ∈ selsItems tmpl second ss, WF t
+  | [] => by intro t ht; simp [selsItems] at ht
+  | s :: ss => by
+    intro t ht
+    unfold selsItems at ht
+    rcases List.mem_append.mp ht with h | h
+    · exact selItems_wf tmpl second s t h
+    · exact selsItems_wf tmpl second ss t h
+end
+
+theorem targetSpec_wf (tmpl : Bool) (sel : Sel) (h : TopOk sel) : WF (targetSpec tmpl sel) := by
+  cases sel with
+  | text resIri b e t =>
+    simp only [targetSpec]
+    split
+    · refine WF.arr _ ?_
+      intro x hx
+      simp only [List.mem_cons, List.not_mem_nil, or_false] at hx
+      rcases hx with rfl | rfl
+      · exact textSpec_wf _ _ _
+      · exact WF.str _
+    · exact textSpec_wf _ _ _
+  | ann iri =>
+    have := selItems_wf tmpl false (.ann iri)
+    cases iri <;> simp only [targetSpec, selItems, sepBy] at this ⊢ <;> exact this _ (by simp)
+  | res iri =>
+    have := selItems_wf tmpl false (.res iri)
+    simp only [targetSpec, selItems, sepBy] at this ⊢; exact this _ (by simp)
+  | set iri =>
+    have := selItems_wf tmpl false (.set iri)
+    simp only [targetSpec, selItems, sepBy] at this ⊢; exact this _ (by simp)
+  | complex kind subs =>
+    have hp : ∀ second, WF (objT [(kType, [.str (complexType kind)]), (kItems, arrT (selsItems tmpl second subs))]) :=
+      fun second => wf_obj2 _ _ _ _ (WF.str _) (WF.arr _ (selsItems_wf tmpl second subs))
+    simp only [targetSpec]
+    split
+    · refine WF.arr _ ?_
+      intro x hx
+      simp only [List.mem_cons, List.not_mem_nil, or_false] at hx
+      rcases hx with rfl | rfl
+      · exact hp false
+      · exact hp true
+    · exact hp false
+  | skip => exact absurd h (by simp [TopOk])
+  | ranged subs => exact absurd h (by simp [TopOk])
+
+theorem idMem_wf (c : Cfg) (annIri : Option Str) (suffix : Str) : ∀ m ∈ idMem c annIri suffix, WF m.2 := by
+  intro m hm
+  unfold idMem at hm
+  cases annIri with
+  | some iri => simp at hm; subst hm; exact WF.str _
+  | none =>
+    simp only at hm
+    split at hm
+    · simp at hm; subst hm; exact WF.str _
+    · simp at hm
 
 end Stam.WD
